@@ -32,7 +32,8 @@ def plan(tier):
     base = {"case_time_limit": 600,
             "required_classes": ["A:order", "A:exact", "B:solver-independence", "C:adaptive", "D:splitting",
                                  "E:conservation", "F:bond-limit", "TD:time-dependent", "TD:adaptive", "mpdm", "history", "shared-config",
-                                 "family:pc", "family:ps", "family:ps2", "family:vmf", "family:cmf"],
+                                 "family:pc", "family:ps", "family:ps2", "family:vmf", "family:cmf",
+                                 "gauge:non-canonical-complex", "gauge:non-canonical-real"],
             "required_counters": {"oracle": 800, "ratios_measured": 100}}
     if tier == "quick":
         base.update({"ncases": 160, "min_nontrivial": 150})
@@ -470,6 +471,18 @@ def run_case(ctx):
     chosen = [all_s[(start + k) % len(all_s)] for k in range(nsel)]
     low = evolve.low_rank_state(ctx, em, qntot)
     psi_low = states.dense_of(low)
+    if rng.random() < 0.35 and full.site_num >= 2:
+        # the same state in a non-canonical (real or complex) gauge: G G^-1 on one to three bonds, random sweep direction
+        g = full.copy()
+        cplx = bool(rng.random() < 0.6)
+        for _ in range(int(rng.integers(1, 4))):
+            states.bond_gauge(rng, g, cplx=cplx)
+        if rng.random() < 0.5:
+            g.to_right = not g.to_right
+        ok = ctx.close(states.dense_of(g), psi, 1e-10, "harness|gauge-transformation-changed-the-state", scale=1.0)
+        if ok and not states.check_labels(g):
+            full = g
+            ctx.cls("gauge:non-canonical-complex" if cplx else "gauge:non-canonical-real")
     first = None
     for sc in chosen:
         if sc.family == "pc" and rng.random() < 0.4:
